@@ -465,7 +465,7 @@ func judgePrinter(rep *lib.Report, prop string, c *lib.Ctx, ln *printerLine, res
 	if is("C01") && !lib.WellFormed(res.Out) {
 		rep.Violate("printer:illformed", fmt.Sprintf("%s: output %q", desc(), res.Out), kase)
 	}
-	if is("C03") && lib.WellFormed(res.Out) && !lib.LineSafe(res.Out) {
+	if is("C03") && !lib.LineSafe(res.Out) { // (each line a redactable of its own: an ill-formed whole has an ill-formed line)
 		rep.Violate("printer:linespan", fmt.Sprintf("%s: output %q", desc(), res.Out), kase)
 	}
 	if is("C01") || is("C03") || is("C11") {
@@ -493,6 +493,9 @@ func judgePrinter(rep *lib.Report, prop string, c *lib.Ctx, ln *printerLine, res
 			if (is("C01") || is("C11")) && !lib.WellFormed(hr.Out) {
 				rep.Violate("printer:illformed", fmt.Sprintf("%s with hot payloads: output %q", desc(), hr.Out), kase)
 			}
+			if is("C03") && !lib.WellFormed(hr.Out) && !lib.LineSafe(hr.Out) {
+				rep.Violate("printer:linespan", fmt.Sprintf("%s with hot payloads: output %q", desc(), hr.Out), kase)
+			}
 			if is("C03") && lib.WellFormed(hr.Out) {
 				red := func(b []byte) []byte { return []byte(redact.RedactableBytes(b).Redact()) }
 				str := func(b []byte) []byte { return redact.RedactableBytes(b).StripMarkers() }
@@ -503,6 +506,18 @@ func judgePrinter(rep *lib.Report, prop string, c *lib.Ctx, ln *printerLine, res
 				}
 			}
 		}
+	}
+	if is("C08") || is("C12") || is("C13") || is("C01") {
+		// the call reads its operands: a byte-slice operand holds afterwards what it held before, and the result
+		// shares no memory with it (printing it again gives the same text)
+		walkTerms(ln.C.Ts, func(t *lib.Term) {
+			if t.K != "rbytes" {
+				return
+			}
+			if v, ok := c.Value(t).(redact.RedactableBytes); ok && !bytes.Equal(v, c.Subst(t.B)) {
+				rep.Violate("printer:operand-modified", fmt.Sprintf("%s: after the call the RedactableBytes operand #%d holds %q, it was given as %q", desc(), t.ID, []byte(v), c.Subst(t.B)), kase)
+			}
+		})
 	}
 	if is("C02") {
 		judgeC02(rep, c, ln, kase)
@@ -522,6 +537,9 @@ func judgePrinter(rep *lib.Report, prop string, c *lib.Ctx, ln *printerLine, res
 	}
 	if is("C06") {
 		judgeC06(rep, c, ln, res, kase)
+		if currentSlice == "rnd" {
+			judgeC06Rnd(rep, c, ln, res, kase)
+		}
 	}
 	if is("C11") {
 		judgeC11(rep, c, ln, res, kase)
@@ -694,6 +712,68 @@ func judgeC06(rep *lib.Report, c *lib.Ctx, ln *printerLine, res *realResult, kas
 	}
 }
 
+// judgeC06Rnd: the "characters are those fmt prints for x" clause on the operand lists of the random slice.  Every operand
+// is either a plain value (at every depth only values that mean the same to fmt and to redact) or such a value under
+// wrappers applied directly to the operand -- any chain under an outermost Unsafe(), a single Safe() -- ; the format has no
+// %T / %p.  Then the characters of the result are what fmt prints for the same format and the operands without wrappers.
+func judgeC06Rnd(rep *lib.Report, c *lib.Ctx, ln *printerLine, res *realResult, kase json.RawMessage) {
+	if res.Panicked || currentHook != "none" || len(ln.C.Ts) == 0 || printsAddresses(ln) || formatHasVerb(ln.C.F, 'T') || formatHasVerb(ln.C.F, 'w') {
+		return
+	}
+	raw, _ := json.Marshal(ln.C)
+	var cp pCase
+	if json.Unmarshal(raw, &cp) != nil {
+		return
+	}
+	wrapped := false
+	for i, t := range cp.Ts {
+		x := t
+		if t.K == "unsafe" {
+			for x.K == "safe" || x.K == "unsafe" {
+				x = x.Xs[0]
+			}
+		} else if t.K == "safe" {
+			x = t.Xs[0]
+		}
+		if x != t {
+			wrapped = true
+		}
+		if !plainDeep([]*lib.Term{x}) {
+			return
+		}
+		if t.K == "safe" && ownClassification(x) {
+			return
+		}
+		cp.Ts[i] = x
+	}
+	if !wrapped {
+		return // (no wrapper: C04's subject)
+	}
+	if bytes.Contains(res.Out, []byte("%!(EXTRA")) || (ln.C.E == "Sprint" && len(cp.Ts) > 1) {
+		// where the operand's Go TYPE shows, a wrapper is a type of its own: named in the report of a surplus operand, and
+		// not a string when Sprint decides about a blank between two operands
+		return
+	}
+	sc := lib.NewCtxLike(c.Dict, c.HandleBase)
+	defer sc.Release()
+	args := sc.Values(cp.Ts)
+	var std string
+	switch ln.C.E {
+	case "Sprintf":
+		std = fmt.Sprintf(string(c.Subst(ln.C.F)), args...)
+	case "Sprint":
+		std = fmt.Sprint(args...)
+	case "Sprintln":
+		std = fmt.Sprintln(args...)
+	default:
+		return
+	}
+	rep.Count("wrapper_chars_compared_with_fmt", 1)
+	if got := lib.Strip(res.Out); !bytes.Equal(got, lib.EscapeAll([]byte(std))) {
+		rep.Violate("printer:wrapper-chars", fmt.Sprintf("%s: characters %q, fmt prints %q for the operands without their wrappers", caseString(c, ln.C), got, std), kase)
+	}
+}
+
 // stripWrappers returns the concrete innermost value of a wrapper chain.
 func stripWrappers(c *lib.Ctx, t *lib.Term) interface{} {
 	for t.K == "safe" || t.K == "unsafe" {
@@ -798,6 +878,33 @@ func judgeC11(rep *lib.Report, c *lib.Ctx, ln *printerLine, res *realResult, kas
 		rep.Violate("printer:panic-unreported", fmt.Sprintf("%s: no PANIC= report in %q", desc, res.Out), kase)
 	}
 	judgePanicTwin(rep, c, ln, res, kase)
+	// every entry point contains the panic: StringWithoutMarkers(f) is Sprint(f) without the markers
+	for _, t := range ln.C.Ts {
+		sc := lib.NewCtxLike(c.Dict, c.HandleBase)
+		if sf, ok := sc.Value(t).(redact.SafeFormatter); ok {
+			var want []byte
+			sprintOK := func() (ok bool) {
+				defer func() { ok = recover() == nil }()
+				want = lib.Strip([]byte(redact.Sprint(sf)))
+				return
+			}()
+			if sprintOK {
+				func() {
+					defer func() {
+						if r := recover(); r != nil {
+							rep.Violate("printer:panic", fmt.Sprintf("%s: Sprint of operand #%d contains the panic, StringWithoutMarkers lets it reach the caller: %v", desc, t.ID, r), kase)
+						}
+					}()
+					got := redact.StringWithoutMarkers(sf)
+					rep.AddEval(1)
+					if !printsAddresses(ln) && got != string(want) {
+						rep.Violate("printer:panic-lost-text", fmt.Sprintf("%s: StringWithoutMarkers of operand #%d gives %q, Sprint without its markers %q", desc, t.ID, got, want), kase)
+					}
+				}()
+			}
+		}
+		sc.Release()
+	}
 	// the payload is unsafe: no secret payload text outside envelopes
 	if leaked := secretsVisible(ln.C.Ts, res.Out); leaked != "" {
 		rep.Violate("printer:panic-payload-visible", fmt.Sprintf("%s: secret payload %q is outside envelopes in %q", desc, leaked, res.Out), kase)
